@@ -174,7 +174,14 @@ func cmdRing(args []string) {
 		os.Exit(2)
 	}
 	for _, f := range strings.Split(*funcs, ",") {
-		obs, err := eng.VerifyRing(strings.TrimSpace(f))
+		f = strings.TrimSpace(f)
+		var obs []ringObl
+		var err error
+		if eng.contracts[f+"#exp"] != nil {
+			obs, err = eng.VerifyExp(f)
+		} else {
+			obs, err = eng.VerifyRing(f)
+		}
 		if err != nil {
 			fmt.Println("ERROR:", err)
 			continue
